@@ -608,10 +608,15 @@ class Program:
                 continue
             elif line.startswith(('const ', 'static ')) and ' = const ' in line:
                 # one-line constant: const NAME: T = const V;
-                m = re.match(r'^(?:const|static) (.+?): (.*?) = (const .*);$', line)
+                spans = []
+
+                def _hide(mm):
+                    spans.append(mm.group(0))
+                    return '<IMPLSPAN%d>' % (len(spans) - 1)
+                m = re.match(r'^(?:const|static) (.+?): (.*?) = (const .*);$', re.sub(r'<impl at [^>]*>', _hide, line))
                 if m:
                     b = Body()
-                    b.name = m.group(1)
+                    b.name = re.sub(r'<IMPLSPAN(\d+)>', lambda mm: spans[int(mm.group(1))], m.group(1))
                     b.kind = 'constval'
                     b.nargs = 0
                     b.lines = [m.group(3)]
@@ -651,10 +656,16 @@ class Program:
                 b.arg_types.append(a[k + 1:].strip())
                 b.local_types[int(a[1:k])] = a[k + 1:].strip()
         else:
-            m = re.match(r'^(?:const|static|static mut) (.+?): (.*) = \{$', header)
+            spans = []
+
+            def _hide(mm):
+                spans.append(mm.group(0))
+                return '<IMPLSPAN%d>' % (len(spans) - 1)
+            h2 = re.sub(r'<impl at [^>]*>', _hide, header)
+            m = re.match(r'^(?:const|static|static mut) (.+?): (.*) = \{$', h2)
             if not m:
                 return
-            b.name = m.group(1)
+            b.name = re.sub(r'<IMPLSPAN(\d+)>', lambda mm: spans[int(mm.group(1))], m.group(1))
             b.kind = 'const'
             b.nargs = 0
             b.ret_type = m.group(2)
